@@ -502,11 +502,16 @@ class StdioClient:
                         else:
                             logger.error(f"Task error during shutdown: {e}")
 
-            if self.process and self.process.returncode is None:
-                await self._terminate_process()
-
         except Exception as e:
             logger.debug(f"Error during stdio client shutdown: {e}")
+        finally:
+            # Always reap the child, even when the exit itself is being cancelled
+            if self.process and self.process.returncode is None:
+                try:
+                    with anyio.CancelScope(shield=True):
+                        await self._terminate_process()
+                except Exception as e:
+                    logger.debug(f"Error during stdio client shutdown: {e}")
 
         return False
 
